@@ -570,11 +570,54 @@ func (in *Interp) sortSlice(s SliceVal, less Value, stable bool) {
 // sprintf formats natively. Symbolic integers are concretized when strict,
 // otherwise replaced by a placeholder (error messages only).
 func (in *Interp) sprintf(format string, args SliceVal, strict bool) string {
+	// %T prints the dynamic type and must not run String()/Error() of its operand: rewrite it to
+	// %s with the type's name
+	var out []byte
+	typeArg := map[int]bool{}
+	argi := 0
+	for i := 0; i < len(format); i++ {
+		c := format[i]
+		out = append(out, c)
+		if c != '%' {
+			continue
+		}
+		j := i + 1
+		for j < len(format) && strings.IndexByte("+-# 0123456789.*", format[j]) >= 0 {
+			if format[j] == '*' {
+				argi++
+			}
+			out = append(out, format[j])
+			j++
+		}
+		if j >= len(format) {
+			break
+		}
+		switch format[j] {
+		case '%':
+			out = append(out, '%')
+		case 'T':
+			out = append(out, 's')
+			typeArg[argi] = true
+			argi++
+		default:
+			out = append(out, format[j])
+			argi++
+		}
+		i = j
+	}
 	nat := make([]interface{}, args.Len)
 	for i := 0; i < args.Len; i++ {
+		if typeArg[i] {
+			if iv, ok := in.sget(args, i).(IfaceVal); ok && iv.T != nil {
+				nat[i] = types.TypeString(iv.T, func(p *types.Package) string { return p.Name() })
+			} else {
+				nat[i] = "<nil>"
+			}
+			continue
+		}
 		nat[i] = in.toNative(in.sget(args, i), strict)
 	}
-	return fmt.Sprintf(format, nat...)
+	return fmt.Sprintf(string(out), nat...)
 }
 
 type nativeStringer struct{ s string }
